@@ -22,9 +22,9 @@ def conditions(tier, seed):
                         symbolic=['a0', 'a1', 'ab0', 'ab1', 'v0', 'v1', 'p1', 'p2', 'pb', 'pn (0..3)'],
                         case_split=['ls (initial R1 links)']))
     # generated family: seeded, type-correct, error-free programs (harness/oalrand.py), depth <= 3
-    ngen = 8 if tier == 'quick' else 200
+    ngen = 8 if tier == 'quick' else 120
     for k in range(ngen):
-        out.append(Cond('prog_gen_%d_%d' % (seed, k), 'c04_interp.py', dict(prog='gen_%d_%d' % (seed, k)), timeout=(240 if tier == 'quick' else t),
+        out.append(Cond('prog_gen_%d_%d' % (seed, k), 'c04_interp.py', dict(prog='gen_%d_%d' % (seed, k)), timeout=(240 if tier == 'quick' else 1200),
                         bound='generated program %d of seed %d: all parameter and attribute values, 9 initial link states' % (k, seed),
                         symbolic=['a0', 'a1', 'ab0', 'ab1', 'v0', 'v1', 'p1', 'p2', 'pb', 'pn'], case_split=['ls'], twin=(k < 2)))
     out.append(Cond('undo_relate_using_reflexive', 'c04_undo.py', {}, func='check', timeout=t,
